@@ -105,6 +105,12 @@ CLAIMED = {
    text="Bounded model checking of memory safety at source level: for each of the six raw-pointer C routines reached through its wrapper with the arrays exactly as the wrapper allocates them, every dimension in the bound (N != T combinations included), symbolic array contents under the value contract the Python caller establishes, no load or store lies outside the byte extent of the array it was derived from, no access uses an element width other than the array's, no integer division by zero and no negative allocation size; histogram bin indices stay in range for all IEEE doubles; typed-buffer kernels are covered by reading the bounds-checking directives (IndexError is an allowed rejection).",
    note="Bounds: dimensions 1..3 (quick) / 1..4 (thorough), bins 1..2 (3). Source-level semantics of C99 with LP64 type sizes (long = 8 bytes; on LLP64 the long*/int64 pairing of _mutual_information is a width mismatch outside this claim). Stack exhaustion by alloca for huge tmax, the compiled artefact itself and surrogate arrays whose shape differs from the documented one are outside.",
    ref="DESIGN.md §3 C20"),
+ "C18": dict(
+   engine="P+K+C",
+   technique="proxy-value symbolic execution of the real ResNetwork methods on concrete connected topologies with symbolic positive conductances; numpy.linalg.pinv is replaced by a model stating the defining equations of the pseudo-inverse (after a solver query shows that the matrix handed to it is the admittance Laplacian); each circuit law is a z3 query (QF_NRA/LRA); the C current-flow sums are executed by the clang-AST interpreter with fully symbolic matrices; sat models replayed on real ResNetwork objects against a NumPy reference",
+   text="Bounded model checking: on every connected topology up to the bound and for all positive conductances within the symbolic budget, effective_resistance is symmetric, zero only on the diagonal, satisfies the triangle inequality, never exceeds the resistance of a connecting link (paths follow with the triangle inequality), equals the series sum on trees and the parallel law on cycles, and satisfies Foster's theorem; average/diameter/closeness, admittive degree, neighbour degree and clustering equal their defining sums; vertex and edge current-flow betweenness equal their defining sums for every admittance and R matrix (kernels) and receive the right matrices from the public methods; after update_resistances every quantity equals that of the new resistances and scales linearly with a common factor.",
+   note="Bounds: n=3 and sparse n=4 with all conductances symbolic, all n=4 classes with two symbolic conductances, n=5 classes with one; kernels N<=3 (4 thorough). Exact reals: pinv's rounding and the float32 copies are outside; complex impedances outside.",
+   ref="DESIGN.md §3 C18"),
 }
 NA_DEFAULT = "check not built yet in this round (see DESIGN.md §6 for the planned obligation)"
 def main():
